@@ -36,6 +36,16 @@ Theorem C03_capacity_respected : forall cfg ops t,
 Proof. exact capacity_respected. Qed.
 Print Assumptions C03_capacity_respected.
 
+Theorem C03_select_takes_oldest_up_to_limit : forall sel l lim,
+  let l' := fst (select_loop sel lim l) in
+  let n := snd (select_loop sel lim l) in
+  (forall m, lim = Some m -> n <= m)
+  /\ n <= countN (eligible sel) l
+  /\ (n < countN (eligible sel) l -> lim = Some n)
+  /\ l' = select_mark sel (N.to_nat n) l.
+Proof. exact select_takes_oldest_up_to_limit. Qed.
+Print Assumptions C03_select_takes_oldest_up_to_limit.
+
 Theorem C03_write_oldest_first : forall b budget,
   let b' := fst (ebuf_write_hdrs b budget) in
   let r := snd (ebuf_write_hdrs b budget) in
